@@ -203,6 +203,65 @@ def leak_after_use(ctx):
     Validator.clear_caches()
 
 
+def internal_types(ctx):
+    """the types that only the internal schema validator has (`callable`, `hashable`) are types of no validator
+    class: every class rejects a schema that uses them, at any depth, cold"""
+    shapes = [lambda t: {'f': {'type': t}},
+              lambda t: {'f': {'type': 'dict', 'schema': {'g': {'type': ['string', t]}}}},
+              lambda t: {'f': {'type': 'list', 'schema': {'anyof': [{'type': t}, {'type': 'integer'}]}}},
+              lambda t: {'f': {'type': 'dict', 'valuesrules': {'type': t}}}]
+    for cls in (Validator, Sibling, XValidator, OddOnly):
+        for t in ('callable', 'hashable'):
+            for k, shape in enumerate(shapes):
+                sch = shape(t)
+                Validator.clear_caches()
+                try:
+                    cls(copy.deepcopy(sch))
+                except SchemaError:
+                    ctx.dist('internal_types', 'rejected')
+                    continue
+                except Exception as e:
+                    ctx.fail('C16 oracle: %s raised %s for a schema that uses the internal type %r' % (cls.__name__, type(e).__name__, t),
+                             {'schema': repr(sch)})
+                    return
+                ctx.fail('C16 oracle: %s accepts the type %r, which only the internal schema validator defines' % (cls.__name__, t),
+                         {'schema': repr(sch), 'class': cls.__name__})
+                return
+    Validator.clear_caches()
+
+
+def option_level(ctx):
+    """an extension inside the rule set given as the validator option allow_unknown: accepted (and applied to unknown
+    fields) by the class that defines it, rejected by every other class"""
+    for kind, ext in EXTENSIONS:
+        forms = [dict(ext), dict(ext, nullable=True)]
+        if kind in ('checker',):
+            forms.append({'anyof_check_with': ['k_odd', 'k_pass']})
+        for rules in forms:
+            Validator.clear_caches()
+            try:
+                XValidator({'known': {}}, allow_unknown=copy.deepcopy(rules), flag=FLAG)
+            except Exception as e:
+                ctx.fail('C16 oracle: the subclass rejects its own %s in the allow_unknown option (%s)' % (kind, type(e).__name__),
+                         {'allow_unknown': repr(rules)}, detail=str(e)[:300])
+                return
+            for other in (Validator, Sibling) if kind in ('rule', 'rule_cfg', 'type') else (Validator,):
+                Validator.clear_caches()
+                try:
+                    other({'known': {}}, allow_unknown=copy.deepcopy(rules))
+                except SchemaError:
+                    ctx.dist('option_level', 'rejected by ' + other.__name__)
+                    continue
+                except Exception as e:
+                    ctx.fail('C16 oracle: %s raised %s for a foreign %s in the allow_unknown option' % (other.__name__, type(e).__name__, kind),
+                             {'allow_unknown': repr(rules)})
+                    return
+                ctx.fail('C16 oracle: %s accepts the %s of another class in the allow_unknown option' % (other.__name__, kind),
+                         {'allow_unknown': repr(rules), 'class': other.__name__})
+                return
+    Validator.clear_caches()
+
+
 def run(ctx, n):
     ctx.cov['rule'] = ('generated schemas with one extension of a generated subclass (custom rule, rule reading an extra config '
                        'argument, custom type, named coercer / default setter / check_with) planted at a random rule-set position of '
@@ -211,6 +270,8 @@ def run(ctx, n):
                        'every depth; non-trivial = planted at depth >= 2; distinct by (schema, document)')
     profiles = ['validate', 'deep', 'normalize', 'of']
     leak_after_use(ctx)
+    internal_types(ctx)
+    option_level(ctx)
     with Driver() as drv:
         for i, prof, case, g in cases.stream(ctx.seed, n, profiles):
             one(ctx, drv, i, prof, case)
@@ -218,6 +279,8 @@ def run(ctx, n):
 
 
 def search(ctx, n):
+    internal_types(ctx)
+    option_level(ctx)
     with Driver() as drv:
         for i, prof, case, g in cases.stream(ctx.seed + 7919, n, ['validate', 'deep', 'normalize']):
             before = len(ctx.failures)
